@@ -10,36 +10,40 @@ The statements are about the models of `Expr.set` / `Expr.modify` / the fragment
 correspondence run of harness/cmd/jpmut) and the specification lean/OjgVerif/JPMut/Spec.lean, whose
 selected locations are those of the shared path denotation `JPath.eval` (what Get returns).
 
-* `C13_full dev` — the property at full strength for the model with deviation set `dev`: every
-  mutator, every path, all/One, simple and gen data.
-* `C13_full_false` — it is false for the code as it is (`Dev.current`: the pinned inclusive reading of slices,
-  `witness_sliceInclusive`; a location selected twice, `witness_repeated`). `witness_*_before`: one
-  kernel-evaluated witness per repaired deviation (model `Dev.before`), each with the verdict of the model with
-  that deviation off. `current_is_source`: every repaired flag of `Dev.current` is off exactly because the
-  patched source lines are there (facts regenerated from jp/*.go on every run).
-* `C13_current` — the property for the code as it is (`Dev.current`), with the exclusions that the repairs
-  discharge discharged: what is left is `CleanPath` — no union lists a member of the visited value twice, and
-  every slice selects, in the inclusive reading the suite pins, the indexes of the specification on the arrays
-  it meets.
-* `C13_partial`, and behind it `set_eq`, `del_eq`, `modify_eq`, `remove_eq` with their corollaries
-  (`set_hit`, `set_frame`, `del_frame`, `del_gone_key`, `del_null_idx`, `modify_hit`, `modify_frame`,
-  `remAll_gone_key`, `remArr_shift`, `remArr_length`) — the `_partial` theorems, for ANY deviation set:
-  Set, Del, Modify and Remove (all matches) on simple data and paths without recursive descent leave exactly
-  the tree the specification names — the new value at the selected locations and in the members created
-  along name/index chains, selected object members gone, selected array elements null (Del) or removed
-  with exact shifting (Remove), everything else untouched — whenever they report no error, excluding exactly
-  the named predicates: a union that lists a member of the data twice, a slice whose reading by the code
-  selects other indexes than the specification on an array it meets (for `Dev.fixed` no slice is excluded),
-  the reflect branch of a filter on a map (`filterMapNil`), `$` on a root that is not a container
-  (`rootScalar`), a from-the-end index in the union of a Remove (`removeUnionNeg`).
-* `one_set`, `one_modify`, `one_remove` — the One forms, for every path (descent and filters included), every
-  deviation set, simple and gen data, whatever is reported: the data afterwards is the data before, or differs
-  from it by ONE member of ONE container written, added or deleted (`OneChange`); for RemoveOne: one container
-  has lost one member. (That the member is a selected location is checked by the oracle of the harness.)
-* `reported_*` — error-not-fault for every path (descent and filters included): with `genUnionOOB` off
-  no entry point ends in a run-time fault; Modify/Remove never do.
-* `gen_*` — with `genUnionOOB` / `genModifyNil` off the mutators do on gen data what they do on simple
-  data, for every path. -/
+* `C13_full dev` — the property at full strength for the model with deviation set `dev`: every mutator, every path,
+  all/One, simple and gen data. `C13_full_false` — it is FALSE for the code as it is (`Dev.current`): the mutators read
+  a slice end as inclusive (pinned by the suite; `witness_sliceInclusive`), and a location selected twice is worked
+  through twice (`witness_repeated`).
+* What IS proved about the code as it is, in decreasing order of strength of hypotheses needed — all of it ONLY for
+  paths WITHOUT recursive descent, all matches (not the One forms), simple data with unique member names, and ONLY for
+  calls that report no error (`… = .ok d'`):
+  - `C13_incl` — the full description of the current code, every slice: Set/Del/Modify/Remove leave exactly the tree
+    edited at the locations the path selects when slices are read INCLUSIVELY (`expectedG inclIdx`; hit/frame:
+    `modify_incl_hit`, `modify_incl_frame`; Modify and Remove cannot report an error: `modify_incl`, `remove_incl`).
+    Only hypothesis besides the above: no union lists a member of a visited value twice (`UnionsClean`). Where the
+    inclusive and the exclusive reading differ this is not what the property demands but what the code does.
+  - `C13_current` — the PROPERTY (exclusive reading, Get's) for the current code on CLEAN paths: `CleanPath` = no repeated
+    union member and, on every array a slice meets, both readings select the same indexes. A slice with an explicit end
+    inside the array (`[0:2]` on three elements — the ordinary case) is NOT clean; see the checked examples.
+  - `C13_partial` (= `set_eq`, `del_eq`, `modify_eq`, `remove_eq` with `set_hit`, `set_frame`, `del_frame`,
+    `del_gone_key`, `del_null_idx`, `modify_hit`, `modify_frame`, `remAll_gone_key`, `remArr_shift`, `remArr_length`) —
+    the same statement for ANY deviation set `dev` and ANY reading `σ` of slices that selects no index twice, under the
+    hypotheses `GoodPath σ dev` / `RemPath σ dev` (the code's slice arithmetic agrees with `σ` on the arrays met, no
+    repeated union member, and the flag-guarded cases). `C13_incl` and `C13_current` are its instances.
+* `witness_*_before` — one kernel-evaluated witness per REPAIRED deviation (model `Dev.before`), with the verdict of the
+  model with that deviation off. `current_is_source` — regression tripwires over the patched lines: nine booleans that
+  tools/extract/jpmut.go computes by matching the shape of the patched source lines, `decide`d against `Dev.current`;
+  undoing a repair breaks the theorem; it is not a semantic tie (that is the correspondence run).
+* `one_set`, `one_modify`, `one_remove` — the One forms, every path (descent and filters included), every deviation set,
+  simple and gen data, whatever is reported: AT MOST ONE member of one container is written, added or deleted
+  (`OneChange`; for Set/Del with `QAny := True`, i.e. nothing is said about the new content). They do NOT say that this
+  member is a SELECTED location holding the new value — that is checked by the oracle of the run only.
+* `reported_*` — error-not-fault for every path: with `genUnionOOB` off (so for `Dev.current`: `reported_current`) no
+  entry point ends in a run-time fault; Modify/Remove never do.
+* `gen_*`, `gen_current` — with `genUnionOOB` / `genModifyNil` off the model on gen data is the model on simple data.
+  Near-definitional (the model consults `gen` only in `gen && flag`); the behaviour of the real code on gen data is
+  compared with simple data by the run.
+-/
 namespace OjgVerif.C13
 open OjgVerif OjgVerif.JPath OjgVerif.JPMut
 
@@ -149,17 +153,25 @@ theorem witness_repeated :
 theorem C13_full_false : ¬ C13_full Dev.current := by
   intro h
   have := h false false .rem [.slice (some 1) (some 3) none] (ints [0, 1, 2, 3, 4, 5]) (by simp [ints, WF, WFL])
-  simp only [runModel, witness_sliceInclusive.1, Holds, Bool.false_eq_true, if_false, expected, witness_sliceInclusive.2.1] at this
+  have e : expected [.slice (some 1) (some 3) none] (ints [0, 1, 2, 3, 4, 5]) .rem = ints [0, 3, 4, 5] := witness_sliceInclusive.2.1
+  simp only [runModel, witness_sliceInclusive.1, Holds, Bool.false_eq_true, if_false, e] at this
   simp [ints] at this
+
+/-! Everything in the next five sections is stated for an arbitrary reading `σ` of slices (`selG σ`, `locsG σ`,
+`setSpecG σ`, …: the path denotation of JPath/Spec.lean with `σ` in the place of `sliceIdx`) that selects no index twice
+(`NodupSlice σ`). `σ := sliceIdx` is the property (`locs`, `setSpec`, … are these instances); `σ := inclIdx`, the inclusive
+reading the suite pins, gives the full description of the code as it is (`C13_incl` below). -/
+
+variable {σ : SliceFn} [NodupSlice σ]
 
 /-! ## the partial theorems: Modify -/
 
 /-- Modify, all matches, simple data, a path without recursive descent: the returned tree is the input
-with the modifier applied at exactly the selected locations (`updAll m.eff (locs x d) d`) — for every
-deviation set, outside the predicates excluded by `GoodPath` and the `$`-on-a-scalar case -/
+with the modifier applied at exactly the selected locations (`updAll m.eff (locsG σ x d) d`) — for every
+deviation set, outside the predicates excluded by `GoodPath σ` and the `$`-on-a-scalar case -/
 theorem modify_eq (dev : Dev) (m : Modifier) (x : List Frag) (d : JV) (hnd : NoDescent x) (hw : WF d)
-    (hg : GoodPath dev x d) (hroot : ¬ (x = [] ∧ dev.rootScalar = true ∧ isContainer d = false)) :
-    modifyM false dev false m x d = .ok (modifySpec x m d) :=
+    (hg : GoodPath σ dev x d) (hroot : ¬ (x = [] ∧ dev.rootScalar = true ∧ isContainer d = false)) :
+    modifyM false dev false m x d = .ok (modifySpecG σ x m d) :=
   modifyM_eq dev m x d hnd hw hg hroot
 
 theorem isPrefixOf_same_length : ∀ (p q : Path), p.isPrefixOf q = true → p.length = q.length → p = q
@@ -171,18 +183,18 @@ theorem isPrefixOf_same_length : ∀ (p q : Path), p.isPrefixOf q = true → p.l
     rw [h.1, isPrefixOf_same_length p q h.2 (by simpa using hl)]
 
 /-- without descent every selected location is as long as the path -/
-theorem locs_length : ∀ (x : List Frag), NoDescent x → ∀ (d : JV), WF d → ∀ p ∈ locs x d, p.length = x.length
+theorem locs_length : ∀ (x : List Frag), NoDescent x → ∀ (d : JV), WF d → ∀ p ∈ locsG σ x d, p.length = x.length
   | [], _, d, _, p, hp => by
     simp only [locs_nil, List.mem_singleton] at hp
     rw [hp]; rfl
   | f :: r, hnd, d, hw, p, hp => by
-    obtain ⟨m, hm, q, hq, rfl⟩ := (mem_locs_cons f r d p).1 hp
-    obtain ⟨l, hl, hc⟩ := Shape_of f d (hnd f (by simp)) (WF_top d hw) m hm
+    obtain ⟨m, hm, q, hq, rfl⟩ := (mem_locs_cons (σ := σ) f r d p).1 hp
+    obtain ⟨l, hl, hc⟩ := Shape_of (σ := σ) f d (hnd f (by simp)) (WF_top d hw) m hm
     have := locs_length r (fun g hg => hnd g (List.mem_cons_of_mem _ hg)) m.2 (WF_child l d m.2 hw hc) q hq
     simp [hl, this]
 
-theorem alone_of_noDescent (x : List Frag) (hnd : NoDescent x) (d : JV) (hw : WF d) (p : Path) (hp : p ∈ locs x d) :
-    Alone (locs x d) p := by
+theorem alone_of_noDescent (x : List Frag) (hnd : NoDescent x) (d : JV) (hw : WF d) (p : Path) (hp : p ∈ locsG σ x d) :
+    Alone (locsG σ x d) p := by
   intro p' hp' hc
   have h1 := locs_length x hnd d hw p hp
   have h2 := locs_length x hnd d hw p' hp'
@@ -192,26 +204,26 @@ theorem alone_of_noDescent (x : List Frag) (hnd : NoDescent x) (d : JV) (hw : WF
 
 /-- hit: afterwards every selected location holds the modifier's result on what it held -/
 theorem modify_hit (dev : Dev) (m : Modifier) (x : List Frag) (d d' : JV) (hnd : NoDescent x) (hw : WF d)
-    (hg : GoodPath dev x d) (hroot : ¬ (x = [] ∧ dev.rootScalar = true ∧ isContainer d = false))
-    (h : modifyM false dev false m x d = .ok d') : ∀ p ∈ locs x d, valAt p d' = (valAt p d).map m.eff := by
+    (hg : GoodPath σ dev x d) (hroot : ¬ (x = [] ∧ dev.rootScalar = true ∧ isContainer d = false))
+    (h : modifyM false dev false m x d = .ok d') : ∀ p ∈ locsG σ x d, valAt p d' = (valAt p d).map m.eff := by
   rw [modify_eq dev m x d hnd hw hg hroot] at h
   injection h with h
   subst h
   intro p hp
-  exact updAll_hit m.eff p (locs x d) d hp (alone_of_noDescent x hnd d hw p hp)
+  exact updAll_hit m.eff p (locsG σ x d) d hp (alone_of_noDescent x hnd d hw p hp)
 
 /-- frame: every location that is not at, above or below a selected location holds what it held -/
 theorem modify_frame (dev : Dev) (m : Modifier) (x : List Frag) (d d' : JV) (hnd : NoDescent x) (hw : WF d)
-    (hg : GoodPath dev x d) (hroot : ¬ (x = [] ∧ dev.rootScalar = true ∧ isContainer d = false))
-    (h : modifyM false dev false m x d = .ok d') : Frame (locs x d) d d' := by
+    (hg : GoodPath σ dev x d) (hroot : ¬ (x = [] ∧ dev.rootScalar = true ∧ isContainer d = false))
+    (h : modifyM false dev false m x d = .ok d') : Frame (locsG σ x d) d d' := by
   rw [modify_eq dev m x d hnd hw hg hroot] at h
   injection h with h
   subst h
   intro q hq
-  exact updAll_frame m.eff q (locs x d) d hq
+  exact updAll_frame m.eff q (locsG σ x d) d hq
 
 /-- a non-trivial instance of the hypotheses: `$[*].a` on `[{"a":1},{"a":2}]`, the code as it is -/
-example : NoDescent [.wild, .child kA] ∧ WF (.arr [objA 1, objA 2]) ∧ GoodPath Dev.current [.wild, .child kA] (.arr [objA 1, objA 2]) := by
+example : NoDescent [.wild, .child kA] ∧ WF (.arr [objA 1, objA 2]) ∧ GoodPath σ Dev.current [.wild, .child kA] (.arr [objA 1, objA 2]) := by
   refine ⟨?_, ?_, ?_⟩
   · intro f hf; simp at hf; rcases hf with rfl | rfl <;> rfl
   · simp [WF, WFL, WFK, objA, keysOf]
@@ -223,17 +235,17 @@ example : NoDescent [.wild, .child kA] ∧ WF (.arr [objA 1, objA 2]) ∧ GoodPa
 example : modifyM false Dev.current false inc [.wild, .child kA] (.arr [objA 1, objA 2]) = .ok (.arr [objA 2, objA 3]) := by rfl
 
 /-- for the code with every deviation repaired no slice is excluded -/
-theorem goodAt_slice_fixed (s e t : Option Int) (c : JV) : GoodAt Dev.fixed (.slice s e t) c := by
+theorem goodAt_slice_fixed (s e t : Option Int) (c : JV) : GoodAt sliceIdx Dev.fixed (.slice s e t) c := by
   intro xs _
   simp [modIdx, Dev.fixed]
 
 /-! ## the partial theorems: Remove -/
 
 /-- Remove, all matches, simple data, a path without recursive descent: the returned tree is the input with
-exactly the selected members removed (`remAll (locs x d) d`) -/
+exactly the selected members removed (`remAll (locsG σ x d) d`) -/
 theorem remove_eq (dev : Dev) (sx : List Frag) (f : Frag) (d : JV) (hnd : NoDescent (sx ++ [f])) (hw : WF d)
-    (hg : GoodPath dev sx d) (hr : RemPath dev f sx d) :
-    removeM false dev false (sx ++ [f]) d = .ok (removeSpec (sx ++ [f]) d) :=
+    (hg : GoodPath σ dev sx d) (hr : RemPath σ dev f sx d) :
+    removeM false dev false (sx ++ [f]) d = .ok (removeSpecG σ (sx ++ [f]) d) :=
   removeM_eq dev sx f d hnd hw hg hr
 
 theorem lookup_filter_none (k : Bytes) (q : Bytes × JV → Bool) : ∀ (kvs : List (Bytes × JV)),
@@ -308,8 +320,8 @@ theorem remArr_length (T : List Path) : ∀ (xs : List JV) (o : Nat),
     · simp only [hc, Bool.false_eq_true, if_false, List.length_cons]; omega
 
 /-- a non-trivial instance of the hypotheses of `remove_eq`, the code as it is: `$[*][0]` on `[[1,2],[3]]` -/
-example : NoDescent ([Frag.wild] ++ [.nth 0]) ∧ GoodPath Dev.current [.wild] (.arr [ints [1, 2], ints [3]]) ∧
-    RemPath Dev.current (.nth 0) [.wild] (.arr [ints [1, 2], ints [3]]) := by
+example : NoDescent ([Frag.wild] ++ [.nth 0]) ∧ GoodPath σ Dev.current [.wild] (.arr [ints [1, 2], ints [3]]) ∧
+    RemPath σ Dev.current (.nth 0) [.wild] (.arr [ints [1, 2], ints [3]]) := by
   refine ⟨?_, ⟨trivial, fun _ _ => trivial⟩, fun _ _ => trivial⟩
   intro f hf; simp at hf; rcases hf with rfl | rfl <;> rfl
 
@@ -318,17 +330,17 @@ example : removeM false Dev.current false [.wild, .nth 0] (.arr [ints [1, 2], in
 /-! ## the partial theorems: Del -/
 
 /-- Del, all matches, simple data, a path without recursive descent: if no error is reported the data afterwards
-is the input with the selected object members gone and the selected array elements null (`delAll (locs x d) d`) -/
-theorem del_eq (dev : Dev) (x : List Frag) (d d' : JV) (hnd : NoDescent x) (hw : WF d) (hg : GoodPathS dev x d)
-    (h : setM false dev false .del x d = .ok d') : d' = delSpec x d :=
+is the input with the selected object members gone and the selected array elements null (`delAll (locsG σ x d) d`) -/
+theorem del_eq (dev : Dev) (x : List Frag) (d d' : JV) (hnd : NoDescent x) (hw : WF d) (hg : GoodPathS σ dev x d)
+    (h : setM false dev false .del x d = .ok d') : d' = delSpecG σ x d :=
   delM_eq dev x d d' hnd hw hg h
 
 /-- frame of Del: every location that is not at, above or below a selected location holds what it held -/
-theorem del_frame (dev : Dev) (x : List Frag) (d d' : JV) (hnd : NoDescent x) (hw : WF d) (hg : GoodPathS dev x d)
-    (h : setM false dev false .del x d = .ok d') : Frame (locs x d) d d' := by
+theorem del_frame (dev : Dev) (x : List Frag) (d d' : JV) (hnd : NoDescent x) (hw : WF d) (hg : GoodPathS σ dev x d)
+    (h : setM false dev false .del x d = .ok d') : Frame (locsG σ x d) d d' := by
   rw [del_eq dev x d d' hnd hw hg h]
   intro q hq
-  exact delAll_frame q (locs x d) d hq
+  exact delAll_frame q (locsG σ x d) d hq
 
 /-- a selected object member is gone (one level; deeper levels by `delAll`'s recursion and `del_frame`) -/
 theorem del_gone_key (T : List Path) (k : Bytes) (kvs : List (Bytes × JV)) (h : [Loc.key k] ∈ T) :
@@ -344,24 +356,24 @@ example : setM false Dev.current false .del [.wild, .child kA] (.arr [objA 1, .o
 /-! ## the partial theorems: Set -/
 
 /-- Set, all matches, simple data, a path without recursive descent: if no error is reported the data afterwards
-is `setSpec x v d`: the new value at every selected location, the members the path names but does not find
-created along name/index chains (`creates`), everything else as it was -/
-theorem set_eq (dev : Dev) (v : JV) (x : List Frag) (d d' : JV) (hnd : NoDescent x) (hw : WF d) (hg : GoodPathS dev x d)
-    (h : setM false dev false (.val v) x d = .ok d') : d' = setSpec x v d :=
+is `setSpecG σ x v d`: the new value at every selected location, the members the path names but does not find
+created along name/index chains (`createsG σ`), everything else as it was -/
+theorem set_eq (dev : Dev) (v : JV) (x : List Frag) (d d' : JV) (hnd : NoDescent x) (hw : WF d) (hg : GoodPathS σ dev x d)
+    (h : setM false dev false (.val v) x d = .ok d') : d' = setSpecG σ x v d :=
   setM_eq dev v x d d' hnd hw hg h
 
 /-- hit: afterwards every selected location holds the new value -/
-theorem set_hit (dev : Dev) (v : JV) (x : List Frag) (d d' : JV) (hnd : NoDescent x) (hw : WF d) (hg : GoodPathS dev x d)
-    (h : setM false dev false (.val v) x d = .ok d') : ∀ p ∈ locs x d, valAt p d' = some v := by
+theorem set_hit (dev : Dev) (v : JV) (x : List Frag) (d d' : JV) (hnd : NoDescent x) (hw : WF d) (hg : GoodPathS σ dev x d)
+    (h : setM false dev false (.val v) x d = .ok d') : ∀ p ∈ locsG σ x d, valAt p d' = some v := by
   rw [set_eq dev v x d d' hnd hw hg h]
   intro p hp
   exact setSpec_hit v x hnd d hw p hp (alone_of_noDescent x hnd d hw p hp)
 
 /-- frame: every location that exists and is not at, above or below a selected location or a created member holds
 what it held -/
-theorem set_frame (dev : Dev) (v : JV) (x : List Frag) (d d' : JV) (hnd : NoDescent x) (hw : WF d) (hg : GoodPathS dev x d)
+theorem set_frame (dev : Dev) (v : JV) (x : List Frag) (d d' : JV) (hnd : NoDescent x) (hw : WF d) (hg : GoodPathS σ dev x d)
     (h : setM false dev false (.val v) x d = .ok d') (q : Path) (c : JV) (hv : valAt q d = some c)
-    (h1 : touched (locs x d) q = false) (h2 : touched ((creates v x d).map (·.1)) q = false) : valAt q d' = some c := by
+    (h1 : touched (locsG σ x d) q = false) (h2 : touched ((createsG σ v x d).map (·.1)) q = false) : valAt q d' = some c := by
   rw [set_eq dev v x d d' hnd hw hg h]
   exact setSpec_frame v x d c q hv h1 h2
 
@@ -369,26 +381,26 @@ theorem set_frame (dev : Dev) (v : JV) (x : List Frag) (d d' : JV) (hnd : NoDesc
 example : setM false Dev.current false (.val (.int 9)) [.child kA, .child kB, .nth 2] (.obj []) =
     .ok (.obj [(kA, .obj [(kB, .arr [.null, .null, .int 9])])]) := by rfl
 
-example : setSpec [.child kA, .child kB, .nth 2] (.int 9) (.obj []) = .obj [(kA, .obj [(kB, .arr [.null, .null, .int 9])])] := by rfl
+example : setSpecG σ [.child kA, .child kB, .nth 2] (.int 9) (.obj []) = .obj [(kA, .obj [(kB, .arr [.null, .null, .int 9])])] := by rfl
 
 /-- a non-trivial instance of the hypotheses of `set_eq`/`del_eq`, the code as it is: `$[*].a` on `[{"a":1},{"b":2}]` -/
-example : NoDescent [.wild, .child kA] ∧ GoodPathS Dev.current [.wild, .child kA] (.arr [objA 1, .obj [(kB, .int 2)]]) := by
+example : NoDescent [.wild, .child kA] ∧ GoodPathS σ Dev.current [.wild, .child kA] (.arr [objA 1, .obj [(kB, .int 2)]]) := by
   refine ⟨?_, trivial, fun _ _ => ⟨trivial, fun _ _ => trivial⟩⟩
   intro f hf; simp at hf; rcases hf with rfl | rfl <;> rfl
 
 /-! ## the four mutators together -/
 
 /-- the predicates excluded for the mutation `op` on `(x, d)` -/
-def Good (dev : Dev) (x : List Frag) (d : JV) : Op → Prop
-  | .set _ => GoodPathS dev x d
-  | .del => GoodPathS dev x d
-  | .mod _ => GoodPath dev x d ∧ ¬ (x = [] ∧ dev.rootScalar = true ∧ isContainer d = false)
-  | .rem => ∃ sx f, x = sx ++ [f] ∧ GoodPath dev sx d ∧ RemPath dev f sx d
+def Good (σ : SliceFn) (dev : Dev) (x : List Frag) (d : JV) : Op → Prop
+  | .set _ => GoodPathS σ dev x d
+  | .del => GoodPathS σ dev x d
+  | .mod _ => GoodPath σ dev x d ∧ ¬ (x = [] ∧ dev.rootScalar = true ∧ isContainer d = false)
+  | .rem => ∃ sx f, x = sx ++ [f] ∧ GoodPath σ dev sx d ∧ RemPath σ dev f sx d
 
 /-- C13 (all matches, simple data, paths without recursive descent) for every deviation set, outside the excluded
 predicates: a mutator that reports no error leaves exactly the tree the specification names -/
-theorem C13_partial (dev : Dev) (op : Op) (x : List Frag) (d d' : JV) (hnd : NoDescent x) (hw : WF d) (hg : Good dev x d op)
-    (h : runModel false dev false x d op = .ok d') : d' = expected x d op := by
+theorem C13_partial (dev : Dev) (op : Op) (x : List Frag) (d d' : JV) (hnd : NoDescent x) (hw : WF d) (hg : Good σ dev x d op)
+    (h : runModel false dev false x d op = .ok d') : d' = expectedG σ x d op := by
   cases op with
   | set v => exact set_eq dev v x d d' hnd hw hg h
   | del => exact del_eq dev x d d' hnd hw hg h
@@ -405,7 +417,8 @@ theorem C13_partial (dev : Dev) (op : Op) (x : List Frag) (d d' : JV) (hnd : NoD
 /-! ## the code as it is now -/
 
 /-- the eight repaired deviations are off in `Dev.current` exactly because the patched source lines are there: the
-facts are regenerated from jp/slice.go, set.go, modify.go, union.go on every run (tools/extract/jpmut.go); undoing a
+facts are regenerated from jp/slice.go, set.go, modify.go, union.go on every run (tools/extract/jpmut.go matches the
+shape of the patched lines). These are regression tripwires over the patched lines, not a semantic tie: undoing a
 repair flips a fact and breaks this theorem -/
 theorem current_is_source :
     Dev.current =
@@ -419,13 +432,110 @@ theorem current_is_source :
         filterMapNil := !Gen.JpMut.modifyReflectNullSafe
         rootScalar := !Gen.JpMut.modifyRootPushed } := by decide
 
-/-- the exclusions that are left for the code as it is: a union that lists a member of the value twice; a slice whose
-inclusive reading (the pinned one: end inclusive, absent end = last element) selects other indexes than the
-specification on the array; recursive descent -/
+/-! ### what the code as it is does, for EVERY slice: the inclusive reading
+
+The mutators read a slice end as inclusive (pinned by the suite), Get as exclusive. So for the code as it is the
+property itself (`σ := sliceIdx`) can only hold where the two readings agree (`C13_current` below, `CleanPath`) — and a
+slice with an explicit end inside the array is not such a case. The full statement about the current code is
+therefore made with the reading it implements: `C13_incl` — Set, Del, Modify and Remove work on exactly the locations
+the path selects when slices are read inclusively (`locsG inclIdx`: `JPath.eval` with `inclIdx` in the place of
+`sliceIdx`), for every slice, with no slice-related hypothesis. -/
+
+/-- no union of the path lists a member of a value it is applied to twice (values reached under the inclusive reading) -/
+def UnionsClean : List Frag → JV → Prop
+  | [], _ => True
+  | f :: r, d => (∀ ms, f = .union ms → (unionLocs ms d).Nodup) ∧ ∀ m ∈ selG inclIdx f d, UnionsClean r m.2
+
+theorem unionsClean_good : ∀ (x : List Frag) (d : JV), NoDescent x → UnionsClean x d → GoodPath inclIdx Dev.current x d
+  | [], _, _, _ => trivial
+  | f :: r, d, hnd, h =>
+    ⟨goodAt_incl f d (hnd f (by simp)) h.1,
+     fun m hm => unionsClean_good r m.2 (fun g hg => hnd g (List.mem_cons_of_mem _ hg)) (h.2 m hm)⟩
+
+theorem unionsClean_goodS : ∀ (x : List Frag) (d : JV), NoDescent x → UnionsClean x d → GoodPathS inclIdx Dev.current x d
+  | [], _, _, _ => trivial
+  | f :: r, d, hnd, h =>
+    ⟨goodAtS_incl f d (hnd f (by simp)) h.1,
+     fun m hm => unionsClean_goodS r m.2 (fun g hg => hnd g (List.mem_cons_of_mem _ hg)) (h.2 m hm)⟩
+
+theorem unionsClean_split (f : Frag) (hf : isDescentF f = false) : ∀ (sx : List Frag) (d : JV), UnionsClean (sx ++ [f]) d →
+    UnionsClean sx d ∧ RemPath inclIdx Dev.current f sx d
+  | [], d, _ => ⟨trivial, remGood_incl f d hf⟩
+  | g :: r, d, h =>
+    ⟨⟨h.1, fun m hm => (unionsClean_split f hf r m.2 (h.2 m hm)).1⟩, fun m hm => (unionsClean_split f hf r m.2 (h.2 m hm)).2⟩
+
+/-- THE CODE AS IT IS, every slice: Set, Del, Modify, Remove (all matches, simple data with unique member names, a path
+without recursive descent in which no union lists a member twice) that report no error leave exactly
+`expectedG inclIdx x d op` — the tree edited at the locations the path selects when slices are read INCLUSIVELY (what
+Set creates included). No hypothesis about slices. Where the inclusive and the exclusive reading differ this is NOT what
+the property demands (known finding C13-slice-inclusive): it is what the code does. -/
+theorem C13_incl (op : Op) (x : List Frag) (d d' : JV) (hnd : NoDescent x) (hw : WF d) (hu : UnionsClean x d)
+    (h : runModel false Dev.current false x d op = .ok d') : d' = expectedG inclIdx x d op := by
+  apply C13_partial Dev.current op x d d' hnd hw ?_ h
+  cases op with
+  | set v => exact unionsClean_goodS x d hnd hu
+  | del => exact unionsClean_goodS x d hnd hu
+  | mod m => exact ⟨unionsClean_good x d hnd hu, fun h => by simp [Dev.current] at h⟩
+  | rem =>
+    cases hx : x.getLast? with
+    | none =>
+      have : x = [] := by simpa using hx
+      subst this
+      simp [runModel, removeM] at h
+    | some f =>
+      have hne : x ≠ [] := by intro e; subst e; simp at hx
+      have hsplit : x = x.dropLast ++ [f] := by
+        rw [List.getLast?_eq_some_getLast hne] at hx
+        injection hx with hx
+        rw [← hx, List.dropLast_concat_getLast hne]
+      have hf : isDescentF f = false := hnd f (List.mem_of_getLast? hx)
+      have hndl : NoDescent x.dropLast := fun g hg => hnd g (List.dropLast_subset x hg)
+      rw [hsplit] at hu
+      obtain ⟨h1, h2⟩ := unionsClean_split f hf x.dropLast d hu
+      exact ⟨x.dropLast, f, hsplit, unionsClean_good _ d hndl h1, h2⟩
+
+/-- Modify, the code as it is, every slice: no error is possible; hit and frame with respect to the inclusive selection -/
+theorem modify_incl (m : Modifier) (x : List Frag) (d : JV) (hnd : NoDescent x) (hw : WF d) (hu : UnionsClean x d) :
+    modifyM false Dev.current false m x d = .ok (modifySpecG inclIdx x m d) :=
+  modify_eq Dev.current m x d hnd hw (unionsClean_good x d hnd hu) (fun h => by simp [Dev.current] at h)
+
+theorem modify_incl_hit (m : Modifier) (x : List Frag) (d : JV) (hnd : NoDescent x) (hw : WF d) :
+    ∀ p ∈ locsG inclIdx x d, valAt p (modifySpecG inclIdx x m d) = (valAt p d).map m.eff := by
+  intro p hp
+  exact updAll_hit m.eff p (locsG inclIdx x d) d hp (alone_of_noDescent x hnd d hw p hp)
+
+theorem modify_incl_frame (m : Modifier) (x : List Frag) (d : JV) : Frame (locsG inclIdx x d) d (modifySpecG inclIdx x m d) :=
+  fun q hq => updAll_frame m.eff q (locsG inclIdx x d) d hq
+
+/-- Remove, the code as it is, every slice: no error is possible -/
+theorem remove_incl (sx : List Frag) (f : Frag) (d : JV) (hnd : NoDescent (sx ++ [f])) (hw : WF d)
+    (hu : UnionsClean (sx ++ [f]) d) :
+    removeM false Dev.current false (sx ++ [f]) d = .ok (removeSpecG inclIdx (sx ++ [f]) d) :=
+  have hf : isDescentF f = false := hnd f (by simp)
+  remove_eq Dev.current sx f d hnd hw
+    (unionsClean_good sx d (fun g hg => hnd g (List.mem_append_left _ hg)) (unionsClean_split f hf sx d hu).1)
+    (unionsClean_split f hf sx d hu).2
+
+/-- `Remove $[1:3]` on `[0,1,2,3,4,5]`: the inclusive selection is 1, 2, 3 and that is what is removed -/
+example : locsG inclIdx [.slice (some 1) (some 3) none] (ints [0, 1, 2, 3, 4, 5]) = [[.idx 1], [.idx 2], [.idx 3]] ∧
+    removeSpecG inclIdx [.slice (some 1) (some 3) none] (ints [0, 1, 2, 3, 4, 5]) = ints [0, 4, 5] ∧
+    removeM false Dev.current false [.slice (some 1) (some 3) none] (ints [0, 1, 2, 3, 4, 5]) = .ok (ints [0, 4, 5]) :=
+  ⟨by rfl, by rfl, by rfl⟩
+
+/-- the hypotheses are satisfied by an ordinary slice path: `$[0:1].a` on `[{"a":1},{"a":2},{"a":3}]` -/
+example : UnionsClean [.slice (some 0) (some 1) none, .child kA] (.arr [objA 1, objA 2, objA 3]) :=
+  ⟨fun _ h => (by cases h), fun _ _ => ⟨fun _ h => (by cases h), fun _ _ => trivial⟩⟩
+
+/-! ### the property itself (exclusive reading) for the code as it is: where the two readings agree -/
+
+/-- the exclusions that are left when the code as it is is measured against the PROPERTY (Get's exclusive reading): a
+union that lists a member of the value twice; a slice on which the inclusive reading selects other indexes than the
+specification on the array at hand — in particular EVERY slice with an explicit end inside the array (`[0:2]` on three
+elements); recursive descent -/
 def CleanAt (f : Frag) (e : JV) : Prop :=
   match f with
   | .union ms => (unionLocs ms e).Nodup
-  | .slice s e' t => ∀ xs, e = .arr xs → modIdx Dev.current xs.length s e' t = sliceIdx xs.length s e' t
+  | .slice s e' t => ∀ xs, e = .arr xs → inclIdx xs.length s e' t = sliceIdx xs.length s e' t
   | .descent => False
   | _ => True
 
@@ -434,11 +544,7 @@ def CleanPath : List Frag → JV → Prop
   | [], _ => True
   | f :: r, d => CleanAt f d ∧ ∀ m ∈ sel f d, CleanPath r m.2
 
-/-- since a7f7cdd set.go visits in an inner slice what modify.go visits -/
-theorem setIdx_current (n : Nat) (s e t : Option Int) : setIdx Dev.current n s e t = modIdx Dev.current n s e t := by
-  simp [setIdx, modIdx, Dev.current]
-
-theorem cleanAt_good (f : Frag) (e : JV) (h : CleanAt f e) : GoodAt Dev.current f e := by
+theorem cleanAt_good (f : Frag) (e : JV) (h : CleanAt f e) : GoodAt sliceIdx Dev.current f e := by
   cases f with
   | filter p => exact Or.inl rfl
   | union ms => exact h
@@ -448,7 +554,7 @@ theorem cleanAt_good (f : Frag) (e : JV) (h : CleanAt f e) : GoodAt Dev.current 
   | nth i => trivial
   | wild => trivial
 
-theorem cleanAt_goodS (f : Frag) (e : JV) (h : CleanAt f e) : GoodAtS Dev.current f e := by
+theorem cleanAt_goodS (f : Frag) (e : JV) (h : CleanAt f e) : GoodAtS sliceIdx Dev.current f e := by
   cases f with
   | slice s e' t => intro xs hx; rw [setIdx_current]; exact h xs hx
   | union ms => exact h
@@ -458,42 +564,42 @@ theorem cleanAt_goodS (f : Frag) (e : JV) (h : CleanAt f e) : GoodAtS Dev.curren
   | nth i => trivial
   | wild => trivial
 
-theorem cleanPath_good : ∀ (x : List Frag) (d : JV), CleanPath x d → GoodPath Dev.current x d
-  | [], _, _ => trivial
-  | f :: r, d, h => ⟨cleanAt_good f d h.1, fun m hm => cleanPath_good r m.2 (h.2 m hm)⟩
-
-theorem cleanPath_goodS : ∀ (x : List Frag) (d : JV), CleanPath x d → GoodPathS Dev.current x d
-  | [], _, _ => trivial
-  | f :: r, d, h => ⟨cleanAt_goodS f d h.1, fun m hm => cleanPath_goodS r m.2 (h.2 m hm)⟩
-
-/-- a clean last fragment removes what the specification selects: for a slice because `Slice.remove` drops what the
-inclusive loop visits (`remSel_current`, since 18e5d18), for a union because from-the-end members count (0eb0265) -/
-theorem cleanAt_remGood (f : Frag) (c : JV) (h : CleanAt f c) : RemGood Dev.current f c := by
+theorem cleanAt_remGood (f : Frag) (c : JV) (h : CleanAt f c) : RemGood sliceIdx Dev.current f c := by
   cases f with
   | union ms => exact Or.inl rfl
   | slice s e t =>
     intro xs hx i hi
-    rw [remSel_current xs.length s e t i hi, h xs hx]
+    rw [remSel_incl xs.length s e t i hi, h xs hx]
   | descent => exact h
   | child k => trivial
   | nth i => trivial
   | wild => trivial
   | filter p => trivial
 
-/-- a clean path is clean up to its last fragment, and its last fragment is clean on every value it is applied to -/
+theorem cleanPath_good : ∀ (x : List Frag) (d : JV), CleanPath x d → GoodPath sliceIdx Dev.current x d
+  | [], _, _ => trivial
+  | f :: r, d, h => ⟨cleanAt_good f d h.1, fun m hm => cleanPath_good r m.2 (h.2 m (selG_spec f d ▸ hm))⟩
+
+theorem cleanPath_goodS : ∀ (x : List Frag) (d : JV), CleanPath x d → GoodPathS sliceIdx Dev.current x d
+  | [], _, _ => trivial
+  | f :: r, d, h => ⟨cleanAt_goodS f d h.1, fun m hm => cleanPath_goodS r m.2 (h.2 m (selG_spec f d ▸ hm))⟩
+
 theorem cleanPath_split (f : Frag) : ∀ (sx : List Frag) (d : JV), CleanPath (sx ++ [f]) d →
-    CleanPath sx d ∧ RemPath Dev.current f sx d
+    CleanPath sx d ∧ RemPath sliceIdx Dev.current f sx d
   | [], d, h => ⟨trivial, cleanAt_remGood f d h.1⟩
   | g :: r, d, h =>
-    ⟨⟨h.1, fun m hm => (cleanPath_split f r m.2 (h.2 m hm)).1⟩, fun m hm => (cleanPath_split f r m.2 (h.2 m hm)).2⟩
+    ⟨⟨h.1, fun m hm => (cleanPath_split f r m.2 (h.2 m hm)).1⟩,
+     fun m hm => (cleanPath_split f r m.2 (h.2 m (selG_spec g d ▸ hm))).2⟩
 
-/-- C13 for the code as it is now (all matches, simple data, paths without recursive descent): a mutator that reports
-no error leaves exactly the tree the specification names, on every CLEAN path: no union lists a member of the visited
-value twice, every slice selects in the pinned inclusive reading what the specification selects. The filter, root,
-from-the-end and step-alignment exclusions of `C13_partial` are discharged by the repairs. -/
+/-- C13 — the property, exclusive reading — for the code as it is now (all matches, simple data, paths without recursive
+descent, no error reported), on CLEAN paths only: no union lists a member of the visited value twice, and on every
+array a slice meets the inclusive and the exclusive reading select the same indexes. A slice with an explicit end inside
+the array is not clean (see the examples): there the code contradicts the property (C13-slice-inclusive) and `C13_incl`
+says what it does instead. The filter, root, from-the-end and step-alignment exclusions of `C13_partial` are discharged
+by the repairs. -/
 theorem C13_current (op : Op) (x : List Frag) (d d' : JV) (hnd : NoDescent x) (hw : WF d) (hc : CleanPath x d)
     (h : runModel false Dev.current false x d op = .ok d') : d' = expected x d op := by
-  apply C13_partial Dev.current op x d d' hnd hw ?_ h
+  apply C13_partial (σ := sliceIdx) Dev.current op x d d' hnd hw ?_ h
   cases op with
   | set v => exact cleanPath_goodS x d hc
   | del => exact cleanPath_goodS x d hc
@@ -514,37 +620,58 @@ theorem C13_current (op : Op) (x : List Frag) (d d' : JV) (hnd : NoDescent x) (h
       obtain ⟨h1, h2⟩ := cleanPath_split f x.dropLast d hc
       exact ⟨x.dropLast, f, hsplit, cleanPath_good _ d h1, h2⟩
 
-/-- the corollaries for the code as it is: Set -/
+/-- on a clean path the two readings select the same locations -/
 theorem set_hit_current (v : JV) (x : List Frag) (d d' : JV) (hnd : NoDescent x) (hw : WF d) (hc : CleanPath x d)
     (h : setM false Dev.current false (.val v) x d = .ok d') : ∀ p ∈ locs x d, valAt p d' = some v :=
-  set_hit Dev.current v x d d' hnd hw (cleanPath_goodS x d hc) h
-
-theorem set_frame_current (v : JV) (x : List Frag) (d d' : JV) (hnd : NoDescent x) (hw : WF d) (hc : CleanPath x d)
-    (h : setM false Dev.current false (.val v) x d = .ok d') (q : Path) (c : JV) (hv : valAt q d = some c)
-    (h1 : touched (locs x d) q = false) (h2 : touched ((creates v x d).map (·.1)) q = false) : valAt q d' = some c :=
-  set_frame Dev.current v x d d' hnd hw (cleanPath_goodS x d hc) h q c hv h1 h2
+  set_hit (σ := sliceIdx) Dev.current v x d d' hnd hw (cleanPath_goodS x d hc) h
 
 theorem del_frame_current (x : List Frag) (d d' : JV) (hnd : NoDescent x) (hw : WF d) (hc : CleanPath x d)
     (h : setM false Dev.current false .del x d = .ok d') : Frame (locs x d) d d' :=
-  del_frame Dev.current x d d' hnd hw (cleanPath_goodS x d hc) h
+  del_frame (σ := sliceIdx) Dev.current x d d' hnd hw (cleanPath_goodS x d hc) h
 
-/-- Modify, the code as it is: no error is possible, hit and frame hold -/
 theorem modify_current (m : Modifier) (x : List Frag) (d : JV) (hnd : NoDescent x) (hw : WF d) (hc : CleanPath x d) :
     modifyM false Dev.current false m x d = .ok (modifySpec x m d) :=
-  modify_eq Dev.current m x d hnd hw (cleanPath_good x d hc) (fun h => by simp [Dev.current] at h)
+  modify_eq (σ := sliceIdx) Dev.current m x d hnd hw (cleanPath_good x d hc) (fun h => by simp [Dev.current] at h)
 
-theorem modify_hit_current (m : Modifier) (x : List Frag) (d : JV) (hnd : NoDescent x) (hw : WF d) (hc : CleanPath x d) :
-    ∀ p ∈ locs x d, valAt p (modifySpec x m d) = (valAt p d).map m.eff := by
-  intro p hp
-  exact updAll_hit m.eff p (locs x d) d hp (alone_of_noDescent x hnd d hw p hp)
-
-/-- Remove, the code as it is: no error is possible -/
 theorem remove_current (sx : List Frag) (f : Frag) (d : JV) (hnd : NoDescent (sx ++ [f])) (hw : WF d)
     (hc : CleanPath (sx ++ [f]) d) :
     removeM false Dev.current false (sx ++ [f]) d = .ok (removeSpec (sx ++ [f]) d) :=
-  remove_eq Dev.current sx f d hnd hw (cleanPath_good sx d (cleanPath_split f sx d hc).1) (cleanPath_split f sx d hc).2
+  remove_eq (σ := sliceIdx) Dev.current sx f d hnd hw (cleanPath_good sx d (cleanPath_split f sx d hc).1) (cleanPath_split f sx d hc).2
 
-/-- since f263838 / 99212c8 gen data behaves as simple data, for every path -/
+/-- which paths are clean. `$[*].a` on `[{"a":1},{"b":2}]` is. Of the slices only those on which the two readings select
+the same indexes of the array at hand: an absent end (`[1:]`, `[::2]`: "to the last element" in both readings) or an end
+at or beyond the length (`[0:5]` on three elements). A slice with an explicit end INSIDE the array — `[0:2]` or `[0:1]` on
+`[1,2,3]`, the ordinary case — is NOT clean. -/
+example : CleanPath [.wild, .child kA] (.arr [objA 1, .obj [(kB, .int 2)]]) := ⟨trivial, fun _ _ => ⟨trivial, fun _ _ => trivial⟩⟩
+
+/-- clean: `[1:]`, `[::2]`, `[0:5]` on three elements -/
+example : inclIdx 3 (some 1) none none = sliceIdx 3 (some 1) none none ∧
+    inclIdx 3 none none (some 2) = sliceIdx 3 none none (some 2) ∧
+    inclIdx 3 (some 0) (some 5) none = sliceIdx 3 (some 0) (some 5) none := ⟨by rfl, by rfl, by rfl⟩
+
+example : CleanPath [.slice (some 1) none none] (ints [1, 2, 3]) := by
+  refine ⟨?_, fun _ _ => trivial⟩
+  intro xs hx
+  simp only [ints] at hx
+  injection hx with hx
+  subst hx
+  rfl
+
+/-- not clean: `[0:2]` and `[0:1]` on three elements (inclusive: one element more) -/
+example : inclIdx 3 (some 0) (some 2) none = [0, 1, 2] ∧ sliceIdx 3 (some 0) (some 2) none = [0, 1] ∧
+    inclIdx 3 (some 0) (some 1) none = [0, 1] ∧ sliceIdx 3 (some 0) (some 1) none = [0] := ⟨by rfl, by rfl, by rfl, by rfl⟩
+
+example : ¬ CleanPath [.slice (some 0) (some 2) none] (ints [1, 2, 3]) := by
+  intro h
+  have := h.1 _ rfl
+  simp [ints] at this
+  revert this
+  decide
+
+/-- gen data: with f263838 / 99212c8 the two flags that `gen` consults are off, so the model on gen data IS the model on
+simple data (near-definitional: `setF_gen`, `modF_gen` are an induction over the path that rewrites `gen && false`); what
+it adds to the correspondence run (which compares gen and simple results of the real code case by case) is only that the
+MODEL has no other gen-specific branch -/
 theorem gen_current (one : Bool) (op : Op) (x : List Frag) (d : JV) :
     runModel true Dev.current one x d op = runModel false Dev.current one x d op := by
   cases op with
@@ -561,37 +688,6 @@ theorem reported_current (gen one : Bool) (op : Op) (x : List Frag) (d : JV) : (
   | mod m => exact modifyM_reported gen Dev.current one m x d
   | rem => exact removeM_reported gen Dev.current one x d
 
-/-- which paths are clean. `$[*].a` on `[{"a":1},{"b":2}]` is. Of the slices only those on which the pinned inclusive
-reading and the specification's exclusive reading select the same indexes of the array at hand: an absent end (`[1:]`,
-`[::2]`: "to the last element" in both readings) or an end at or beyond the length (`[0:5]` on three elements). A slice
-with an explicit end INSIDE the array — `[0:2]` or `[0:1]` on `[1,2,3]`, the ordinary case — is NOT clean: the code
-works on one element more than Get selects (known finding C13-slice-inclusive), and `C13_current` says nothing about
-it; what the code does there is described by `C13_partial`'s model only through the correspondence run. -/
-example : CleanPath [.wild, .child kA] (.arr [objA 1, .obj [(kB, .int 2)]]) := ⟨trivial, fun _ _ => ⟨trivial, fun _ _ => trivial⟩⟩
-
-/-- clean: `[1:]`, `[::2]`, `[0:5]` on three elements -/
-example : modIdx Dev.current 3 (some 1) none none = sliceIdx 3 (some 1) none none ∧
-    modIdx Dev.current 3 none none (some 2) = sliceIdx 3 none none (some 2) ∧
-    modIdx Dev.current 3 (some 0) (some 5) none = sliceIdx 3 (some 0) (some 5) none := ⟨by rfl, by rfl, by rfl⟩
-
-example : CleanPath [.slice (some 1) none none] (ints [1, 2, 3]) := by
-  refine ⟨?_, fun _ _ => trivial⟩
-  intro xs hx
-  simp only [ints] at hx
-  injection hx with hx
-  subst hx
-  rfl
-
-/-- not clean: `[0:2]` and `[0:1]` on three elements (inclusive: one element more) -/
-example : modIdx Dev.current 3 (some 0) (some 2) none = [0, 1, 2] ∧ sliceIdx 3 (some 0) (some 2) none = [0, 1] ∧
-    modIdx Dev.current 3 (some 0) (some 1) none = [0, 1] ∧ sliceIdx 3 (some 0) (some 1) none = [0] := ⟨by rfl, by rfl, by rfl, by rfl⟩
-
-example : ¬ CleanPath [.slice (some 0) (some 2) none] (ints [1, 2, 3]) := by
-  intro h
-  have := h.1 _ rfl
-  simp [ints] at this
-  revert this
-  decide
 
 /-! ## the One forms change at most one location -/
 
